@@ -124,6 +124,9 @@ class _Y:
         s = self._h.get("s")
         if s is not None:
             s.yield_point(("read", a))
+        if self._h.get("fault"):
+            self._h["fault"] -= 1
+            raise OSError("injected transient read failure")
         return self._f.read(*a, **k)
 
     def __getattr__(self, n):
@@ -226,6 +229,67 @@ def check_c19(seed, tier):
                 prefix = next_prefix(s.choices)
         finally:
             HOLDER["s"] = None
+            clean()
+    # "without deadlock", the interleaving where one of the loads FAILS: a read of one load raises once (a transient I/O error);
+    # the loads issued afterwards — same variable, other variable, in parallel — must complete with the sequential values
+    # (a lock or a handle left behind by the failed load would block or poison them)
+    rng2 = random.Random(seed + 1919)
+    for trial in range(2 if tier == "quick" else 12):
+        level = rng2.choice(["1.1", "1.5"])
+        cfg = {"seed": rng2.randrange(10**9), "level": level, "images": [("HH", None), ("HV", None)], "n_lines": 6, "n_pixels": 3}
+        prod = products.build(cfg)
+        path, clean = products.place(prod, "tracemem")
+        try:
+            HOLDER["s"] = None
+            HOLDER["fault"] = 0
+            rpc = rng2.choice([1, 2, 1024])
+            t = ceos_alos2.open_alos2(path, backend_options={"use_cache": False, "records_per_chunk": rpc})
+            sels = [("HH", {"rows": slice(0, 3)}), ("HH", {"rows": slice(3, 6)}), ("HV", {"rows": slice(1, 5)})]
+            want = [t[f"imagery/{g}/data"].isel(**ix).values for g, ix in sels]
+            failed = None
+
+            def failing():
+                nonlocal failed
+                try:
+                    HOLDER["fault"] = 1
+                    t["imagery/HH/data"].isel(rows=slice(0, 6)).values
+                except BaseException as e:  # noqa: BLE001
+                    failed = e
+                finally:
+                    HOLDER["fault"] = 0
+            th0 = threading.Thread(target=failing, daemon=True)
+            th0.start()
+            th0.join(timeout=20)
+            evals += 1
+            case = {"cfg": cfg, "scenario": "after-failed-load", "rpc": rpc}
+            distinct.add(("after-failed-load", trial))
+            if th0.is_alive():
+                viol.append({"case": case, "what": "a load whose read raised OSError never returned"})
+                continue
+            got = [None] * len(sels)
+            errs = [None] * len(sels)
+
+            def work2(i):
+                try:
+                    g, ix = sels[i]
+                    got[i] = t[f"imagery/{g}/data"].isel(**ix).values
+                except Exception as e:  # noqa: BLE001
+                    errs[i] = e
+            ths = [threading.Thread(target=work2, args=(i,), daemon=True) for i in range(len(sels))]
+            for th in ths:
+                th.start()
+            for th in ths:
+                th.join(timeout=20)
+            for i, th in enumerate(ths):
+                if th.is_alive():
+                    viol.append({"case": case, "what": f"load {i} ({sels[i][0]}) issued after a load that failed with {type(failed).__name__} did not complete (deadlock: a lock left held by the failed load)"})
+                elif errs[i] is not None:
+                    viol.append({"case": case, "what": f"load {i} after a failed load raised {type(errs[i]).__name__}: {errs[i]}"[:200]})
+                elif not products.same_bits(got[i], want[i]):
+                    viol.append({"case": case, "what": f"load {i} after a failed load differs from its sequential load"})
+        finally:
+            HOLDER["s"] = None
+            HOLDER["fault"] = 0
             clean()
     # loads from another PROCESS: a worker forked after the parent has already read from the tree (the default start method of
     # `multiprocessing` on Linux), a worker given a pickled copy — each load, in the worker and in the parent afterwards, must
